@@ -786,6 +786,7 @@ SparseMatrixCSR<double> DirectSolverGiveCustomLU::buildSolverMatrix()
 
     #pragma omp parallel for if (nnz > 10'000)
     for (int i = 0; i < nnz; i++) {
+        VERIF_ITER(i);
         solver_matrix.values_data()[i] = 0.0;
     }
 
@@ -808,22 +809,26 @@ SparseMatrixCSR<double> DirectSolverGiveCustomLU::buildSolverMatrix()
         {
             #pragma omp for
             for (int circle_task = 0; circle_task < num_circle_tasks; circle_task += 3) {
+                VERIF_ITER(circle_task);
                 int i_r = grid_.numberSmootherCircles() - circle_task - 1;
                 buildSolverMatrixCircleSection(i_r, solver_matrix);
             }
             #pragma omp for
             for (int circle_task = 1; circle_task < num_circle_tasks; circle_task += 3) {
+                VERIF_ITER(circle_task);
                 int i_r = grid_.numberSmootherCircles() - circle_task - 1;
                 buildSolverMatrixCircleSection(i_r, solver_matrix);
             }
             #pragma omp for nowait
             for (int circle_task = 2; circle_task < num_circle_tasks; circle_task += 3) {
+                VERIF_ITER(circle_task);
                 int i_r = grid_.numberSmootherCircles() - circle_task - 1;
                 buildSolverMatrixCircleSection(i_r, solver_matrix);
             }
 
             #pragma omp for
             for (int radial_task = 0; radial_task < num_radial_tasks; radial_task += 3) {
+                VERIF_ITER(radial_task);
                 if (radial_task > 0) {
                     int i_theta = radial_task + additional_radial_tasks;
                     buildSolverMatrixRadialSection(i_theta, solver_matrix);
@@ -840,6 +845,7 @@ SparseMatrixCSR<double> DirectSolverGiveCustomLU::buildSolverMatrix()
             }
             #pragma omp for
             for (int radial_task = 1; radial_task < num_radial_tasks; radial_task += 3) {
+                VERIF_ITER(radial_task);
                 if (radial_task > 1) {
                     int i_theta = radial_task + additional_radial_tasks;
                     buildSolverMatrixRadialSection(i_theta, solver_matrix);
@@ -859,6 +865,7 @@ SparseMatrixCSR<double> DirectSolverGiveCustomLU::buildSolverMatrix()
             }
             #pragma omp for
             for (int radial_task = 2; radial_task < num_radial_tasks; radial_task += 3) {
+                VERIF_ITER(radial_task);
                 int i_theta = radial_task + additional_radial_tasks;
                 buildSolverMatrixRadialSection(i_theta, solver_matrix);
             }
